@@ -27,6 +27,8 @@ fn one_run(case: &AdfCase, script: Vec<(usize, bool)>, twoval: bool, id: String)
         let counter = Arc::new(AtomicUsize::new(0));
         let c2 = counter.clone();
         let sc = script.clone();
+        let picks: Arc<std::sync::Mutex<Vec<(usize, bool)>>> = Arc::new(std::sync::Mutex::new(Vec::new()));
+        let p2 = picks.clone();
         let heu = move |_a: &Adf, interp: &[Term]| -> Option<(Var, Term)> {
             let c = c2.fetch_add(1, Ordering::SeqCst);
             let und: Vec<usize> = interp.iter().enumerate().filter(|(_, t)| !t.is_truth_value()).map(|(i, _)| i).collect();
@@ -34,6 +36,7 @@ fn one_run(case: &AdfCase, script: Vec<(usize, bool)>, twoval: bool, id: String)
                 return None;
             }
             let (rank, val) = if sc.is_empty() { (0, true) } else { sc[c % sc.len()] };
+            p2.lock().unwrap().push((und[rank % und.len()] + 1, val));
             Some((Var(und[rank % und.len()]), Term::from(val)))
         };
         verif_trace::install();
@@ -44,14 +47,20 @@ fn one_run(case: &AdfCase, script: Vec<(usize, bool)>, twoval: bool, id: String)
         } else {
             adf.stable_nogood(Heuristic::Custom(&heu)).collect()
         };
-        (verif_trace::take(), out)
+        let pk = picks.lock().unwrap().clone();
+        (verif_trace::take(), out, pk)
     });
     let mut recs = vec![json!({"kind": "start", "id": id, "n": n, "asts": asts, "twoval": twoval})];
     match res {
-        Outcome::Ok((events, out)) => {
+        Outcome::Ok((events, out, pk)) => {
+            let mut pi = 0;
             for e in events {
                 match e {
-                    Some((cur, bt, ch, st, hi)) => recs.push(json!({"kind": "iter", "cur": interp_json(&cur), "bt": bt, "ch": ch, "stack": st, "hist": hi})),
+                    Some((cur, bt, ch, st, hi)) => {
+                        // the heuristic is asked exactly in the iterations that start with choice = true
+                        let pick = if ch && pi < pk.len() { pi += 1; json!([pk[pi - 1].0, pk[pi - 1].1]) } else { json!([0, false]) };
+                        recs.push(json!({"kind": "iter", "cur": interp_json(&cur), "bt": bt, "ch": ch, "stack": st, "hist": hi, "pick": pick}))
+                    }
                     None => recs.push(json!({"kind": "done", "out": interps_json(&out)})),
                 }
             }
